@@ -12,7 +12,7 @@ MANIFEST = {
           'sleep - for all strategies, MIN_TIMESTAMP_LAG 0/5 and the rate-limit settings; when writeForever '
           'returns nothing accepted before the stop may remain in the cache, and the C03 accounting must hold.',
   'note': 'Fault-free backend; under an update limit the clock may jump by two token-times inside a blocking token acquisition (data choice). Twisted\'s shutdown order (before: triggers; during: crash() sets running False and '
-          'the thread pool is joined) is taken from twisted/internet/base.py and reproduced by the harness. Under an update limit the clock may also jump inside the token bucket\'s blocking acquisition (data choice).',
+          'the thread pool is joined) is taken from twisted/internet/base.py and reproduced by the harness. Under an update limit the clock may also jump inside the token bucket\'s blocking acquisition (data choice). The stop is also performed by the real WriterService (triggers + stopService, once with a dead reload task); cache queries for uncached series during the writer\'s walk; flow control with a paused client and a model of calls handed to the reactor thread (deadlock is a verdict).',
 }
 
 ALL_STRATS = ('sorted', 'max', 'naive', 'timesorted', 'bucketmax', 'random')
